@@ -60,7 +60,9 @@ class Standardiser(PoolDecorator):
         supply = self.target.supply
         by_supply = _clamp(supply - self.backlog, value, supply + self.surplus)
         by_limits = _clamp(self.minimum, by_supply, self.maximum)
-        return type(value)(by_limits)
+        # keep the type of the written value, unless that moves it off a fractional limit
+        same_type = type(value)(by_limits)
+        return same_type if same_type == by_limits else by_limits
 
     def __init__(
         self,
